@@ -19,6 +19,7 @@ import Blots.Model.Json
 import Blots.Model.Cli
 import Blots.Model.Builtins
 import Blots.Model.Eval
+import Blots.Model.Ident
 import Blots.Gen.Prec
 import Blots.Gen.Builtins
 import Blots.Gen.Reserved
@@ -29,3 +30,4 @@ import Blots.Drv.Eval
 import Blots.Drv.NumText
 import Blots.Drv.Units
 import Blots.Drv.Json
+import Blots.Drv.Ident
